@@ -1387,3 +1387,110 @@ func ruleUnravelOrder(c *Ctx, prop string) {
 	c.counts["R30.unravel_loops"] = n
 	c.discharge("R30", "R30:unravel-order:scan", "", fmt.Sprintf("%d functions behind this property scanned for forward unravelling loops (positive control BadUnravel reported, GoodUnravel silent)", len(fns)-len(c.ctlFns)))
 }
+
+// ---- R11:K9: padInput puts pads[i] zeros in front and pads[i+n] zeros behind, on axis 2+i ---------------
+func ruleConvPadOrder(c *Ctx, prop string) {
+	oi := c.opByName("Conv")
+	if oi == nil {
+		return
+	}
+	var f *ssa.Function
+	for g := range c.reachFrom([]*ssa.Function{oi.methods["Apply"]}) {
+		if recvNamed(g) != oi.named || g.Parent() != nil {
+			continue
+		}
+		for _, b := range g.Blocks {
+			for _, in := range b.Instrs {
+				if cl, ok := in.(*ssa.Call); ok {
+					if o := calleeObj(cl); o != nil && qualName(o) == pkgTensor+".Concat" {
+						f = g
+					}
+				}
+			}
+		}
+	}
+	key := "R11:K9:pad-order"
+	if f == nil {
+		c.undecided("R11", key, c.pos(oi.methods["Apply"].Pos()), "Conv no longer pads its input by concatenating zero tensors: where explicit pads are applied cannot be located")
+		return
+	}
+	kc := &kindCtx{c: c, recv: f.Params[0], memo: map[ssa.Value]dimKind{}, fn: f, paramKind: map[string]map[int]dimKind{}, retKind: map[string]dimKind{}}
+	// zero tensors: NewDense(dtype, shape) where shape[SPATIAL+2] was set from pads[kind]
+	padKindOf := func(v ssa.Value) idxKind {
+		for i := 0; i < 4; i++ {
+			switch x := v.(type) {
+			case *ssa.ChangeInterface:
+				v = x.X
+				continue
+			case *ssa.MakeInterface:
+				v = x.X
+				continue
+			}
+			break
+		}
+		cl, ok := v.(*ssa.Call)
+		if !ok {
+			return iUnknown
+		}
+		if o := calleeObj(cl); o == nil || o.Name() != "NewDense" {
+			return iUnknown
+		}
+		shape := stripConv(cl.Common().Args[1])
+		for _, r := range *shape.Referrers() {
+			ia, ok := r.(*ssa.IndexAddr)
+			if !ok || kc.indexKind(ia.Index, 0) != iSpatialOff {
+				continue
+			}
+			for _, rr := range *ia.Referrers() {
+				st, ok := rr.(*ssa.Store)
+				if !ok {
+					continue
+				}
+				if ld, ok := st.Val.(*ssa.UnOp); ok {
+					if pia, ok := ld.X.(*ssa.IndexAddr); ok && kc.sliceKind(pia.X, 0) == kPads {
+						return kc.indexKind(pia.Index, 0)
+					}
+				}
+			}
+		}
+		// shape may be a ChangeType of the clone the stores went to
+		return iUnknown
+	}
+	n, bad, site := 0, "", c.pos(f.Pos())
+	for _, b := range f.Blocks {
+		for _, in := range b.Instrs {
+			cl, ok := in.(*ssa.Call)
+			if !ok {
+				continue
+			}
+			if o := calleeObj(cl); o == nil || qualName(o) != pkgTensor+".Concat" {
+				continue
+			}
+			args := cl.Common().Args
+			if kc.indexKind(args[0], 0) != iSpatialOff {
+				bad, site = "explicit pads are concatenated along an axis that is not spatial axis 2+i", c.pos(cl.Pos())
+				continue
+			}
+			first := padKindOf(args[1])
+			var rest idxKind = iUnknown
+			for _, e := range varargElems(args[2]) {
+				if k := padKindOf(e); k != iUnknown {
+					rest = k
+				}
+			}
+			n++
+			switch {
+			case first == iSpatial && rest == iUnknown: // zeros(pads[i]) ++ x
+			case first == iUnknown && rest == iPadsTail: // x ++ zeros(pads[i+n])
+			case first == iPadsTail || rest == iSpatial:
+				bad, site = "the zeros sized by pads[i] (begin) are appended behind the data, or those sized by pads[i+n] (end) put in front: asymmetric pads are applied on the wrong side", c.pos(cl.Pos())
+			default:
+				bad, site = "a concatenation in the padding step cannot be matched to pads[i] in front / pads[i+n] behind", c.pos(cl.Pos())
+			}
+		}
+	}
+	if n < 2 && bad == "" {
+		bad = fmt.Sprintf("%d padding concatenations found (2 expected: begin and end)", n)
+	}
+	c.decide(bad == "", "R11", key, site, "zeros(pads[i]) ++ x ++ zeros(pads[i+n]) on axis 2+i", bad)
+}
